@@ -51,6 +51,14 @@ var ops = []struct {
 	{"{\nmv := st.get\nst.N = 40\ni = mv()\n}", true}, {"{\nmset := pt.set\npt = &as[0]\nmset(i)\n}", false}, {"{\nme := T.get\ni = me(st)\n}", false},
 	{"{\npa := &ar\nbr = *pa\npa[0] = 55\n}", false}, {"{\nc := ar\npa := &c\npa[1] = 66\nbr = c\n}", false},
 	{"for k, t := range as {\nas[1].N = 70 + k\nj += t.N\n}", false}, {"for k, v := range &ar {\nar[2] = 30 + k\nj += v\n}", false},
+	// third generation: range over an array / slice that is NOT a plain variable (struct field, element of an array of
+	// structs, pointer dereference, slice-typed field) while the body writes a not yet visited element or reslices it:
+	// the range expression is evaluated once, arrays are copied
+	{"for k, v := range st.A {\nst.A[(k+1)%2] += 10\nj += v\n}", true}, {"for k, v := range as[1].A {\nas[1].A[(k+1)%2] += 10\nj += v\n}", false},
+	{"for k, v := range pt.A {\npt.A[(k+1)%2] += 10\nj += v\n}", false}, {"{\npa := &ar\nfor k, v := range *pa {\npa[(k+1)%3] += 10\nj += v\n}\n}", false},
+	{"for _, v := range st.S {\nst.S = st.S[:1]\nj += v\n}", false}, {"{\nn := 0\nfor _, v := range st.S {\nn++\nif n > 6 {\nbreak\n}\nst.S = append(st.S, v)\nj += v\n}\n}", false},
+	{"for k := range st.A {\nst.A[(k+1)%2] += 10\nj += st.A[k]\n}", false}, {"for k, v := range ss[1] {\nss[1] = ss[1][:1]\nj += v + k\n}", false},
+	{"for k, v := range ms[\"k\"].A {\nj += v + k\n}", false}, {"for _, t := range []T{st, su} {\nt.N++\nj += t.N\n}", false},
 	{"i, j = j, i", false}, {"sl[0], sl[1] = sl[1], sl[0]", false}, {"ar[i%3], i = i, ar[i%3]", true}, {"st.N, su.N = su.N, st.N", false}, {"i, sl[i%2] = 1, 9", false}, {"ar, br = br, ar", false}, {"st, su = su, st", false},
 }
 
